@@ -27,11 +27,14 @@ MANIFEST = {
     'technique': 'Lean 4 proof (explicit cut-point refactoring of _package_chunk proved equal to the model; loop induction; buffer invariant) '
                  '+ differential correspondence against the real parser/runner and a plain-exec reference',
 }
-RULE = ('programs of 1..7 (quick) / 1..10 statements from 26 statement kinds (simple, bracketed multi-line, dict/lambda, triple-quoted with '
+RULE = ('programs of 1..7 (quick) / 1..10 statements from 36 statement kinds (simple, bracketed multi-line, dict/lambda, triple-quoted with '
         'prefixed or UNPREFIXED continuation lines, backslash continuation, compound if/for/with, def/async def/class, decorated, comment, '
         'comment inside brackets, expression/print/value+print, semicolon line, top-level await statement and expression, block and inline '
-        'directives) x prompt styles (>>> everywhere / ... continuations / bare ... terminator) x indentation (none, 2/4/8 blanks, TAB, '
-        'blanks+TAB) x header prose / google header x CORRECT wants after any statement x blank lines and prose between chunks; plus the '
+        'directives; expression statements whose VALUE is an un-awaited coroutine, a generator, an async generator, an awaitable object, a '
+        'function or a lambda — their bodies record in the TRACE if anything drives or calls them) x prompt styles (>>> everywhere / ... continuations / bare ... terminator) x indentation (none, 2/4/8 blanks, TAB, '
+        'blanks+TAB) x header prose / google header x CORRECT wants after any statement (also wants that are or end in the ellipsis line `...`) x blank lines and prose between chunks, '
+        'prose DIRECTLY after source or want lines at a smaller indentation, a new example DIRECTLY after a want at any other column '
+        '(shallower or deeper), different columns after blank lines/prose; plus the '
         'exhaustive family `pairs`: every kind in every style after every kind of predecessor (plain / inline directive / want / block '
         'directive / comment) with and without a final expression+want. Compared: model `parse` pieces vs DoctestParser.parse (exec_lines, '
         'want_lines, orig_lines, line_offset, compile_mode, directives); real run vs plain exec of the de-prompted program (TRACE, '
@@ -79,7 +82,7 @@ def _alternate(ctx, corr, count):
         ta, la, fa = pa.render()
         tb, lb, fb = pb.render()
         # A gets one more statement that runs B
-        ta2 = ta + pa.indent + '>>> other()\n'
+        ta2 = ta + pa.indent + ' ' * pa.stmts[-1].shift + '>>> other()\n'
         exa = E.parse_example(ta2)
         exb = E.parse_example(tb)
         if exa is None or exb is None:
@@ -166,14 +169,7 @@ def replay(ctx, failing):
         print('doctest A:\n%s\ndoctest B:\n%s\nexpected %r' % (inp['A'], inp['B'], failing.get('expected')))
         return True
     text = inp['text']
-    d = inp['program']
-    stmts = []
-    for sd in d['stmts']:
-        s = P.Stmt(sd['kind'], sd['k'], sd['style'], sd.get('terminator', False), sd.get('inline'))
-        s.want = sd.get('want')
-        s.sep = sd.get('sep')
-        stmts.append(s)
-    prog = P.Program(stmts, d['indent'], d['header'])
+    prog = P.Program.from_desc(inp['program'])
     t2, line_of, stmt_first = prog.render()
     print('docstring:\n' + text)
     print('de-prompted program:\n' + prog.source)
